@@ -1,6 +1,6 @@
 #!/usr/bin/env python3
-"""Run every seeded defect under /verif/seeded against the quick check of its property (apply the
-patch to /repo, run ./check, ALWAYS revert) and record which monitors fired.
+"""Run every seeded defect under /verif/seeded against the quick check of its property (in a scratch
+worktree + scratch copy of /verif, see seedrun2.sh; /repo is never touched) and record which monitors fired.
 usage: seed_sweep.py [ids...]      results: /verif/seeded/RESULTS.json and each meta.json"""
 import json, os, re, subprocess, sys, time
 V = "/verif"
@@ -15,26 +15,23 @@ for sid in ids:
     if not os.path.isfile(f"{d}/patch.diff"):
         continue
     prop = sid.split("-")[0]
-    assert subprocess.run(["git", "-C", "/repo", "status", "--porcelain"], capture_output=True, text=True).stdout.strip() == "", "/repo not clean"
-    r = subprocess.run(["git", "-C", "/repo", "apply", f"{d}/patch.diff"], capture_output=True, text=True)
-    if r.returncode != 0:
-        res[sid] = {"applied": False, "error": r.stderr[-300:]}
-        continue
+    # isolated: seedrun2.sh patches a scratch worktree and runs a scratch copy of /verif against it
     t0 = time.time()
     try:
-        p = subprocess.run(["./check", prop, "quick"], cwd=V, capture_output=True, text=True, timeout=3000)
+        p = subprocess.run([f"{V}/seedrun2.sh", f"{d}/patch.diff", prop, "quick"], cwd=V, capture_output=True, text=True, timeout=3000)
         out, rc = p.stdout, p.returncode
     except subprocess.TimeoutExpired:
         out, rc = "", 124
-    finally:
-        subprocess.run(["git", "-C", "/repo", "checkout", "--", "."])
+    if rc == 9:
+        res[sid] = {"applied": False, "error": (p.stderr or "")[-300:]}
+        continue
     kinds = sorted(set(re.findall(r"^  kind: (\S+)", out, re.M)))
     res[sid] = {"applied": True, "check": f"./check {prop} quick", "exit": rc, "detected": rc == 1, "violation_kinds": kinds, "wall_s": round(time.time() - t0, 1)}
     print(sid, res[sid], flush=True)
     try:
         m = json.load(open(f"{d}/meta.json"))
         m["detected_by"] = {"check": f"./check {prop} quick", "detected": rc == 1, "violation_kinds": kinds}
-        m["what_i_ran"] = ["python3 confirm_seed.py (demo fails with patch / passes without; whole suite passes with patch) - see confirmed_by_me", f"git -C /repo apply seeded/{sid}/patch.diff && ./check {prop} quick ; git -C /repo checkout -- ."]
+        m["what_i_ran"] = ["python3 confirm_seed.py (demo fails with patch / passes without; whole suite passes with patch) - see confirmed_by_me", f"./seedrun2.sh seeded/{sid}/patch.diff {prop} quick   (scratch worktree of /repo HEAD + patch, scratch copy of /verif pointed at it)"]
         json.dump(m, open(f"{d}/meta.json", "w"), indent=1)
     except Exception as e:
         print("meta update failed", e)
